@@ -18,12 +18,14 @@ import (
 	"math/rand"
 	"net"
 	"os"
+	"strconv"
 	"strings"
 	"time"
 
 	"github.com/jimsnab/go-lane"
 	redisemu "github.com/jimsnab/go-redisemu"
 
+	"verif/harness/internal/gen"
 	"verif/harness/internal/respio"
 )
 
@@ -48,6 +50,14 @@ var argPool = []string{"s", "l", "h", "z", "missing", "0", "1", "-1", "2", "10",
 	"\r\n", "\x00\xff", "k\xc3\x28", "ERROR", "TIMEOUT", "SETNAME", "AUTH", "3", "LEN", "IDX", "MINMATCHLEN", "WITHMATCHLEN",
 	"KILL", "LIST", "UNBLOCK", "INFO", "GETNAME", "NO-EVICT", "on", "SKIPME", "yes", "normal", "ADDR", "LADDR", "USER", "default",
 	"DOCS", "GETKEYS", "GETKEYSANDFLAGS", "FILTERBY", "ACLCAT", "PATTERN", "MODULE", "HELP"}
+
+// values at which integer handling changes: the ends of int64 / int32 / uint32 / uint64, the 512 MB
+// string limit (only from the limit upwards: just below it the emulator rightly allocates that much),
+// and spellings a lenient parser might accept
+var boundaries = []string{"9223372036854775807", "9223372036854775806", "9223372036854775800", "-9223372036854775808", "-9223372036854775807",
+	"9223372036854775808", "-9223372036854775809", "18446744073709551615", "18446744073709551616", "4294967296", "4294967295",
+	"2147483648", "2147483647", "-2147483648", "-2147483649", "536870912", "536870913", "4611686018427387904", "-4611686018427387905",
+	"1152921504606846976", "00", "-0", "+1", " 1", "1 ", "0x10", "1e3", "", "99999999999999999999999999", "-1", "0", "1"}
 
 type grid struct {
 	vs  *redisemu.VerifStore
@@ -110,6 +120,9 @@ func main() {
 	}
 
 	// ---- part 1
+	shapes := gen.New(*seed*31337, "mixed")
+	shapes.Conns = 1
+	shapes.Malformed = 0
 	g := newGrid()
 	for i := 0; i < *n && failures == 0; i++ {
 		if i%400 == 399 {
@@ -126,6 +139,27 @@ func main() {
 		for a := 0; a < arity; a++ {
 			argv = append(argv, argPool[r.Intn(len(argPool))])
 		}
+		if i%3 == 2 {
+			// a well-shaped command of the generator with one of its numeric arguments at a boundary
+			_, shaped, _ := shapes.Next()
+			var numeric []int
+			for j, a := range shaped[1:] {
+				if _, err := strconv.ParseFloat(a, 64); err == nil {
+					numeric = append(numeric, j+1)
+				}
+			}
+			argv = append([]string{}, shaped...)
+			if len(numeric) > 0 {
+				argv[numeric[r.Intn(len(numeric))]] = boundaries[r.Intn(len(boundaries))]
+				stats["boundary_substitutions"]++
+			}
+			name = argv[0]
+			arity = len(argv) - 1
+			switch strings.ToLower(name) {
+			case "blpop", "brpop", "blmove", "brpoplpush", "blmpop", "exec", "discard", "watch", "verif-save":
+				continue
+			}
+		}
 		if isBlockingForever(argv) {
 			continue
 		}
@@ -139,6 +173,7 @@ func main() {
 			p     string
 		}
 		ch := make(chan res, 1)
+		t0 := time.Now()
 		go func() {
 			reply, p := g.cl.Dispatch(toArgv(argv))
 			ch <- res{reply, p}
@@ -146,6 +181,12 @@ func main() {
 		select {
 		case x := <-ch:
 			stats["dispatches"]++
+			if d := time.Since(t0); d > 200*time.Millisecond {
+				stats["slow_over_200ms"]++
+				if os.Getenv("FUZZ_SLOW") != "" {
+					fmt.Printf("slow %v %q\n", d, argv)
+				}
+			}
 			if x.p != "" {
 				fail("panic", argv, fmt.Sprintf("%q panicked: %s", argv, x.p))
 				break
@@ -157,6 +198,16 @@ func main() {
 				break
 			}
 			stats["reply_"+string(x.reply[:1])]++
+			if i%3 == 2 && x.reply[0] != '-' {
+				// a boundary value that was accepted may have left a legitimately huge value behind
+				// (SETBIT k 4294967295 1 is a 512 MB string): start the next cases from small data
+				g.cl.Dispatch(toArgv([]string{"DISCARD"}))
+				g.cl.Dispatch(toArgv([]string{"SELECT", "0"}))
+				g.cl.Dispatch(toArgv([]string{"FLUSHALL"}))
+				for _, c := range [][]string{{"SET", "s", "abc"}, {"RPUSH", "l", "a", "b", "c"}, {"HSET", "h", "f", "1", "g", "x"}, {"SADD", "z", "a", "b"}} {
+					g.cl.Dispatch(toArgv(c))
+				}
+			}
 			if len(samples) < 6 && x.reply[0] == '-' && arity > 2 {
 				samples = append(samples, fmt.Sprintf("%q -> %.50q", argv, x.reply))
 			}
